@@ -160,6 +160,165 @@ def _assignments(body, fn):
     return res
 
 
+
+FLAG = "memLeakMutexIsHeld"
+GETMUTEX = r"MemoryLeakWarningPlugin::getGlobalDetector\(\)->getMutex\(\)"
+
+
+def _block(text, i):
+    """text[i] == '{': (inner text, index after the matching '}')"""
+    d, j = 0, i
+    while j < len(text):
+        if text[j] == "{":
+            d += 1
+        elif text[j] == "}":
+            d -= 1
+            if d == 0:
+                return text[i + 1:j], j + 1
+        j += 1
+    raise TranslateError("unbalanced braces in: " + text[i:i + 60])
+
+
+def _simple(st, where):
+    """one `;`-terminated statement on the flag / the detector's mutex -> Lean `Simple`"""
+    st = re.sub(r"\s+", " ", st.strip())
+    m = re.fullmatch(FLAG + r" = (true|false)", st)
+    if m:
+        return ".setFlag " + m.group(1)
+    if re.fullmatch(GETMUTEX + r"->Unlock\(\)", st):
+        return ".unlock"
+    if re.fullmatch(GETMUTEX + r"->Lock\(\)", st):
+        return ".lock"
+    raise TranslateError("%s: statement not understood: `%s`" % (where, st))
+
+
+def _lstmts(body, where):
+    """statement list of a body made of flag assignments, Lock/Unlock of the detector's mutex and
+    `if (memLeakMutexIsHeld) { ... }` / `if (memLeakMutexIsHeld) stmt;` -> Lean `List LStmt` items"""
+    out, i, n = [], 0, len(body)
+    while i < n:
+        if body[i].isspace() or body[i] == ";":
+            i += 1
+            continue
+        m = re.compile(r"if\s*\(\s*%s\s*\)\s*" % FLAG).match(body, i)
+        if m:
+            j = m.end()
+            if j < n and body[j] == "{":
+                inner, j = _block(body, j)
+            else:
+                k = body.find(";", j)
+                if k < 0:
+                    raise TranslateError("%s: unterminated statement" % where)
+                inner, j = body[j:k + 1], k + 1
+            if re.compile(r"\s*else\b").match(body, j):
+                raise TranslateError("%s: `else` branch not understood" % where)
+            if "if" in re.findall(r"[A-Za-z_]+", inner):
+                raise TranslateError("%s: nested `if` not understood" % where)
+            items = [_simple(x, where) for x in inner.split(";") if x.strip()]
+            out.append(".ifFlag [%s]" % ", ".join(items))
+            i = j
+            continue
+        k = body.find(";", i)
+        if k < 0:
+            raise TranslateError("%s: unterminated statement: `%s`" % (where, body[i:i + 60].strip()))
+        x = _simple(body[i:k], where)
+        out.append(".simple " + (x if " " not in x else "(%s)" % x))
+        i = k + 1
+    return out
+
+
+def _scoped_lock_code(src, by_name):
+    """class MemLeakScopedMutex (constructor, destructor, releaseBeforeFailing, members), the flag's static
+    initialiser and MemoryLeakWarningReporter::fail as statement lists"""
+    m = re.search(r"static\s+bool\s+%s\s*=\s*(true|false)\s*;" % FLAG, src)
+    if not m:
+        raise TranslateError("`static bool %s = <bool>;` not found" % FLAG)
+    flag_init = m.group(1)
+    m = re.search(r"class\s+MemLeakScopedMutex\s*\{", src)
+    if not m:
+        raise TranslateError("class MemLeakScopedMutex not found")
+    cls, _ = _block(src, m.end() - 1)
+    # members: exactly one, a ScopedMutexLock (its constructor locks, its destructor unlocks: checked below on SimpleMutex.cpp)
+    flat = re.sub(r"\s+", " ", cls)
+    depth0 = ""
+    d = 0
+    for ch in cls:                       # the class text outside member function bodies
+        if ch == "{":
+            d += 1
+        elif ch == "}":
+            d -= 1
+            depth0 += ";"
+        elif d == 0:
+            depth0 += ch
+    members = re.findall(r"(?:^|;|:)\s*([A-Za-z_][A-Za-z_0-9]*)\s+([A-Za-z_][A-Za-z_0-9]*)\s*(?=;)", depth0)
+    members = [(t, n) for t, n in members if t not in ("return",)]
+    if len(members) != 1 or members[0][0] != "ScopedMutexLock":
+        raise TranslateError("MemLeakScopedMutex: expected exactly one data member, a ScopedMutexLock; found %r" % (members,))
+    member = members[0][1]
+    # constructor
+    m = re.search(r"(?<![~A-Za-z_0-9])MemLeakScopedMutex\s*\(\s*\)\s*(:[^{]*)?\{", cls)
+    if not m:
+        raise TranslateError("MemLeakScopedMutex constructor not found: " + flat)
+    inits = (m.group(1) or "").lstrip(":").strip()
+    ctor = []
+    if inits:
+        mi = re.fullmatch(r"%s\s*\(\s*%s\s*\)" % (re.escape(member), GETMUTEX), re.sub(r"\s+", " ", inits))
+        if not mi:
+            raise TranslateError("MemLeakScopedMutex constructor: member initialiser not understood: " + inits)
+        ctor.append(".simple .lock")
+    else:
+        raise TranslateError("MemLeakScopedMutex constructor does not initialise the ScopedMutexLock member with the detector's mutex")
+    body, _ = _block(cls, m.end() - 1)
+    ctor += _lstmts(body, "MemLeakScopedMutex constructor")
+    # destructor: body, then the member is destroyed
+    m = re.search(r"~\s*MemLeakScopedMutex\s*\(\s*\)\s*\{", cls)
+    dtor = []
+    if m:
+        body, _ = _block(cls, m.end() - 1)
+        dtor += _lstmts(body, "MemLeakScopedMutex destructor")
+    dtor.append(".simple .unlock")
+    # releaseBeforeFailing
+    m = re.search(r"static\s+void\s+releaseBeforeFailing\s*\(\s*\)\s*\{", cls)
+    release = None
+    if m:
+        body, _ = _block(cls, m.end() - 1)
+        release = _lstmts(body, "MemLeakScopedMutex::releaseBeforeFailing")
+    # MemoryLeakWarningReporter::fail
+    m = re.search(r"class\s+MemoryLeakWarningReporter\s*:\s*public\s+MemoryLeakFailure\s*\{", src)
+    if not m:
+        raise TranslateError("class MemoryLeakWarningReporter not found")
+    rcls, _ = _block(src, m.end() - 1)
+    m = re.search(r"virtual\s+void\s+fail\s*\(\s*char\s*\*\s*\w+\s*\)\s*(?:CPPUTEST_OVERRIDE|override)?\s*\{", rcls)
+    if not m:
+        raise TranslateError("MemoryLeakWarningReporter::fail not found")
+    fbody, _ = _block(rcls, m.end() - 1)
+    fail = []
+    sts = _statements(fbody)
+    for k, st in enumerate(sts):
+        if re.fullmatch(r"MemLeakScopedMutex::releaseBeforeFailing\(\)", st):
+            if release is None:
+                raise TranslateError("fail calls releaseBeforeFailing, which is not defined in MemLeakScopedMutex")
+            fail.append(".releaseBeforeFailing")
+        elif re.fullmatch(r"UtestShell ?\* ?\w+ = UtestShell::getCurrent\(\)", st):
+            fail.append(".other")
+        elif re.fullmatch(r"\w+->failWith\(FailFailure\(.*\), ?UtestShell::getCurrentTestTerminatorWithoutExceptions\(\)\)", st):
+            fail.append(".failWith")
+            if k != len(sts) - 1:
+                raise TranslateError("MemoryLeakWarningReporter::fail: statements after failWith: %r" % sts[k + 1:])
+        elif FLAG in st or "Mutex" in st or "Lock" in st or "lock" in st:
+            raise TranslateError("MemoryLeakWarningReporter::fail: statement on the lock not understood: " + st)
+        else:
+            raise TranslateError("MemoryLeakWarningReporter::fail: statement not understood: " + st)
+    if not fail or fail[-1] != ".failWith":
+        raise TranslateError("MemoryLeakWarningReporter::fail does not end in failWith(.., getCurrentTestTerminatorWithoutExceptions()): %r" % sts)
+    # the flag is written nowhere else in the translation unit
+    outside = src.replace(cls, "")
+    uses = re.findall(r"\b%s\b" % FLAG, outside)
+    if len(uses) != 1:       # the declaration
+        raise TranslateError("%s is used outside class MemLeakScopedMutex (%d places)" % (FLAG, len(uses) - 1))
+    return {"flagInit": flag_init, "ctor": ctor, "dtor": dtor, "release": release or [], "fail": fail}
+
+
 DET_CALLS = ["allocMemory", "deallocMemory", "reallocMemory", "invalidateMemory"]
 
 
@@ -268,15 +427,8 @@ def extract():
         uses_detector = "getGlobalDetector" in b
         fdefs.append((f, locks_first, locks_anywhere, uses_detector, calls))
 
-    # --- shape of the scoped lock
-    m = re.search(r"class\s+MemLeakScopedMutex\s*\{(.*?)\}\s*;", src, re.S)
-    if not m:
-        raise TranslateError("class MemLeakScopedMutex not found")
-    cls = re.sub(r"\s+", " ", m.group(1))
-    if not re.search(r"MemLeakScopedMutex\(\) : (\w+)\(MemoryLeakWarningPlugin::getGlobalDetector\(\)->getMutex\(\)\) \{ \}", cls):
-        raise TranslateError("MemLeakScopedMutex constructor changed shape: " + cls)
-    if not re.search(r"ScopedMutexLock \w+ ;|ScopedMutexLock \w+;", cls):
-        raise TranslateError("MemLeakScopedMutex no longer holds a ScopedMutexLock member: " + cls)
+    # --- the scoped lock, statement by statement
+    code = _scoped_lock_code(src, by_name)
     msrc = strip_comments(read(MUTEX))
     want = {
         r"ScopedMutexLock::ScopedMutexLock\s*\(\s*SimpleMutex\s*\*\s*mtx\s*\)\s*:\s*mutex\s*\(\s*mtx\s*\)\s*\{": "mutex->Lock();",
@@ -296,7 +448,14 @@ def extract():
         return "[" + ",\n   ".join("(%s, %s)" % (lstr(a), lstr(b)) for a, b in ps) + "]"
 
     text = HEADER % ("translate/extract_threadsafe.py", SRC)
-    text += "namespace Gen.ThreadSafe\n\n"
+    text += "import CppUModel.Model.ThreadSafeSyntax\nnamespace Gen.ThreadSafe\n\n"
+    text += ("/-- the scoped lock of the thread-safe wrappers, statement by statement: static initialiser of `memLeakMutexIsHeld`;\n"
+             "    `MemLeakScopedMutex()` (member initialiser = ScopedMutexLock constructor = `mutex->Lock()`, then the body);\n"
+             "    `~MemLeakScopedMutex()` (body, then the member's destructor = `mutex->Unlock()`);\n"
+             "    `MemLeakScopedMutex::releaseBeforeFailing()`; `MemoryLeakWarningReporter::fail` -/\n")
+    text += "def code : _root_.ThreadSafe.Code :=\n"
+    text += "  { flagInit := %s,\n    ctor := [%s],\n    dtor := [%s],\n    release := [%s],\n    fail := [%s] }\n\n" % (
+        code["flagInit"], ", ".join(code["ctor"]), ", ".join(code["dtor"]), ", ".join(code["release"]), ", ".join(code["fail"]))
     text += "/-- allocation function pointers of the translation unit, with their static initialiser -/\n"
     text += "def fptrs : List (String × String) :=\n  %s\n\n" % pairs(fptrs)
     text += "/-- externally visible allocation entry points and the pointer each one calls through -/\n"
